@@ -57,3 +57,8 @@ class C13(ModelCheck):
         obs = SweepObserver(world, cfg, self.id)
         obs.nontrivial = lambda: bool(C13.nt_rule(obs.ev))
         return obs
+
+    def enumerate(self, tier, seed, stats):
+        from ..timeenum import enumerate_timelines
+        cfg = {"usage": True, "blur": None, "allow_list": True}
+        return enumerate_timelines(self, cfg, 3 if tier == "quick" else 5, 8 if tier == "quick" else 16, stats)
